@@ -1,8 +1,9 @@
 SPECIFICATION Spec
-CONSTANTS Prog <- ProgLoopSub  BpSets <- Bps2  MaxReq = 3  Deviations <- ImplDev  Fuel = 40
+CONSTANTS Lines <- Id7  Prog <- ProgLoopSub  BpSets <- Bps2  MaxReq = 3  Deviations <- ImplDev  Fuel = 40
 INVARIANT TypeOK
 INVARIANT StoppedIsHalted_impl
 INVARIANT InspectConsistent_impl
 INVARIANT NoSkippedBreakpoint
+INVARIANT NoSkipAfterProbe
 INVARIANT StepExact_impl
 INVARIANT AtMostOneInFlight
